@@ -26,7 +26,8 @@ let parse_changes (s : string) : change list =
 let show_desc (d : desc) = Printf.sprintf "%d:%d:%d" (int_of_n d.dkey) (int_of_n d.dart) (int_of_n d.dpay)
 let show_list (l : desc list) = if l = [] then "-" else String.concat "," (List.map show_desc l)
 let dash s = if s = "" then "-" else s
-let show_res = function ROk -> "ok" | RIdxDel -> "idxdel" | RErr -> "err"
+(* RLost (the PUT took effect, its response was lost) is a ghost distinction: the caller sees a plain error *)
+let show_res = function ROk -> "ok" | RIdxDel -> "idxdel" | RErr -> "err" | RLost -> "err"
 
 (* a visible schedule (G<t> | P<t>:<f> | U<t>:<f> | D<t>:<f> | E = tag dropped externally) is replayed by the extracted
    vis_summary (Model/Merge.v): the hidden lock regions are inserted there, not here *)
@@ -36,9 +37,10 @@ let parse_vis (ev : string) : vis =
   | 'G' -> VG (nat_of_int (int_of_string rest))
   | 'E' -> VX
   | k ->
-    let t, f = (match String.split_on_char ':' rest with
-                | [a; b] -> nat_of_int (int_of_string a), b = "1" | _ -> failwith "ev") in
-    (match k with 'P' -> VP (t, f) | 'U' -> VU (t, f) | 'D' -> VD (t, f) | _ -> failwith "ev")
+    let t, f, lost = (match String.split_on_char ':' rest with
+                | [a; b] -> nat_of_int (int_of_string a), b = "1", b = "2" | _ -> failwith "ev") in
+    (* U<t>:2 / D<t>:2 = the index PUT / DELETE took effect and was answered with an error (EPutLost / EDelLost) *)
+    (match k with 'P' -> VP (t, f) | 'U' -> if lost then VL t else VU (t, f) | 'D' -> if lost then VK t else VD (t, f) | _ -> failwith "ev")
 
 let show_results rs =
   String.concat "," (List.mapi (fun t r ->
@@ -48,7 +50,11 @@ let tids l = String.concat "," (List.map (fun x -> string_of_int (int_of_nat x))
 
 let run_m (n : int) (evs : string list) : string =
   let changes = List.init n (fun t -> Add { dkey = n_of_int (t + 1); dart = N0; dpay = N0 }) in
-  match vis_summary false None changes (List.map parse_vis evs) with
+  let vs = List.map parse_vis evs in
+  let coarse = vis_summary false None changes vs in
+  (* the channel-level system (Model/MergeFine.v) replays the same schedule: it must agree *)
+  if fvis_summary false None changes vs <> coarse then "MODELS-DISAGREE (Merge.v vs MergeFine.v)" else
+  match coarse with
   | None -> "REJECT"
   | Some (((rs, idx), log), _) ->
     let batches = List.filter_map (function OBatch (m, ms) -> Some (Printf.sprintf "%d:%s" (int_of_nat m) (tids ms)) | _ -> None) log in
@@ -61,7 +67,10 @@ let run_m (n : int) (evs : string list) : string =
 let run_x ?(cmp_dangling = true) (sg : bool) (init0 : string) (changes : change list) (evs : string list) : string =
   let r0 = if init0 = "none" then None else Some (List.map (fun k -> { dkey = n_of_int (int_of_string k); dart = N0; dpay = N0 })
                                                   (if init0 = "-" then [] else String.split_on_char ',' init0)) in
-  match vis_summary sg r0 changes (List.map parse_vis evs) with
+  let vs = List.map parse_vis evs in
+  let coarse = vis_summary sg r0 changes vs in
+  if fvis_summary sg r0 changes vs <> coarse then "MODELS-DISAGREE (Merge.v vs MergeFine.v)" else
+  match coarse with
   | None -> "REJECT"
   | Some (((rs, idx), log), dg) ->
     let keys l = if l = [] then "-" else String.concat "," (List.map (fun k -> string_of_int (int_of_n k)) l) in
@@ -73,6 +82,22 @@ let run_x ?(cmp_dangling = true) (sg : bool) (init0 : string) (changes : change 
     Printf.sprintf "ACC R %s I %s U %s G %s" rs_s
       (match idx with None -> "none" | Some l -> keys l) (dash (String.concat ";" puts))
       (if cmp_dangling then string_of_int (int_of_nat dg) else "*")
+
+(* Y <skipgc> <init> <live0> <changes> <Z> <ev> ...: an end-to-end run on one tag with the
+   manifest exchanges (M<t> = the delete's manifest DELETE) replayed by lvis_summary *)
+let run_y (sg : bool) (init0 : string) (live0 : string) (changes : change list) (z : string) (evs : string list) : string =
+  let ints s = if s = "-" then [] else List.map int_of_string (String.split_on_char ',' s) in
+  let r0 = if init0 = "none" then None else Some (List.map (fun k -> { dkey = n_of_int k; dart = N0; dpay = N0 }) (ints init0)) in
+  let num e = nat_of_int (int_of_string (String.sub e 1 (String.length e - 1))) in
+  let vs = List.map (fun e -> if e.[0] = 'M' then VM (num e) else if e.[0] = 'N' then VN (num e) else LV (parse_vis e)) evs in
+  match lvis_summary sg r0 (List.map n_of_int (ints live0)) changes vs with
+  | None -> "REJECT"
+  | Some ((live, busy), taint) ->
+    let zs = ints z in
+    let excl = List.map int_of_n busy @ List.map int_of_n taint in
+    let l = List.sort_uniq compare (List.filter (fun k -> not (List.mem k zs) && not (List.mem k excl)) (List.map int_of_n live)) in
+    let b = List.length (List.sort_uniq compare (List.filter (fun k -> not (List.mem k zs)) excl)) in
+    Printf.sprintf "Y L %s B %d" (if l = [] then "-" else String.concat "," (List.map string_of_int l)) b
 
 let cap_num = function CapUnknown -> 0 | CapSupported -> 1 | CapUnsupported -> 2
 
@@ -90,9 +115,9 @@ let () =
     | id :: "M" :: n :: evs -> Printf.printf "%s %s\n" id (run_m (int_of_string n) evs)
     | id :: "X" :: sg :: init0 :: cs :: evs ->
       let evs = List.filter (fun e -> e.[0] <> 'J') evs in   (* J<hex>: the replay of the end-to-end case *)
-      if List.exists (fun e -> String.length e > 2 && String.sub e (String.length e - 2) 2 = ":2") evs
-      then Printf.printf "%s UNJUDGED response lost after effect\n" id else
       Printf.printf "%s %s\n" id (run_x ~cmp_dangling:(String.length sg = 1) (sg.[0] = '1') init0 (parse_changes cs) evs)
+    | id :: "Y" :: sg :: init0 :: live0 :: cs :: z :: evs ->
+      Printf.printf "%s %s\n" id (run_y (sg = "1") init0 live0 (parse_changes cs) z evs)
     | [id; "K"; bits] ->
       let bs = List.init (String.length bits) (fun i -> bits.[i] = '1') in
       let rs = set_caps CapUnknown bs in
@@ -110,6 +135,11 @@ let () =
     | [id; "D"; k; a; c] ->
       let kind = (match k with "artifact" -> KArtifact | "index" -> KIndex | _ -> KImage) in
       Printf.printf "%s D %d\n" id (int_of_n (referrer_art kind (n_of_int (int_of_string a)) (n_of_int (int_of_string c))))
+    | id :: "P" :: ops ->
+      (* Pool.Get (g<i>) / release (r<i>) in lock order: for every Get, was a fresh Merge created?
+         (N = fresh: nobody held the entry; S = the entry the holders have) *)
+      let fr = pool_trace None (List.map (fun o -> o.[0] = 'g') ops) in
+      Printf.printf "%s P %s\n" id (String.concat "" (List.map (fun b -> if b then "N" else "S") fr))
     | [id; "E"; n] -> Printf.printf "%s E %s\n" id n
     | [id; "S"; n] -> Printf.printf "%s S %s\n" id n
     | [] -> ()
